@@ -196,6 +196,8 @@ def toidentifier(value):
         assert value.isidentifier(), value
         return value
     elif isinstance(value, numpy.floating):
+        if numpy.isnan(value):
+            return "nan"
         try:
             intvalue = int(value)
         except OverflowError:
